@@ -796,7 +796,8 @@ func (x *Exec) doAppend(st *State, in *ssa.Call, args []Val) bool {
 	}
 	a := x.freshAlloc(st)
 	cp := x.fresh("cap", SInt)
-	st.assume(Le(newLen, cp))
+	// a slice's capacity is a Go int (a successful append never yields more)
+	st.assume(And(Le(newLen, cp), Le(cp, BigInt("9223372036854775807"))))
 	r := MkSlice(a, Int(0), newLen, cp)
 	// contents: old elements then new ones
 	if ln, ok := intLit(SlLen(s)); ok && nKnown {
